@@ -16,7 +16,11 @@ import sys
 import time
 
 ROOT = os.path.dirname(os.path.dirname(os.path.abspath(__file__)))
-HARNESS = os.path.join(ROOT, "harness")
+# VERIF_HARNESS_DIR / VERIF_REPO_DIR are used only by bin/mutcheck (a scratch copy of the
+# harness whose path dependencies point at a scratch worktree of the repository).
+HARNESS = os.environ.get("VERIF_HARNESS_DIR", os.path.join(ROOT, "harness"))
+REPO = os.environ.get("VERIF_REPO_DIR", "/repo")
+WORK = os.environ.get("VERIF_WORK_DIR", os.path.join(ROOT, "work"))
 SPECS = os.path.join(ROOT, "specs")
 BIN = os.path.join(HARNESS, "target", "release")
 JAR = "/opt/veriftools/tla/tla2tools.jar"
@@ -36,7 +40,7 @@ def log(*a):
 def build_harness():
     """Rebuild the harness against /repo's current working tree (hooks on)."""
     t0 = time.time()
-    lock_src = "/repo/Cargo.lock"
+    lock_src = os.path.join(REPO, "Cargo.lock")
     lock_dst = os.path.join(HARNESS, "Cargo.lock")
     if not os.path.exists(lock_dst):
         shutil.copy(lock_src, lock_dst)
@@ -70,7 +74,7 @@ _tlc_cmds = []
 
 
 def workdir(tag):
-    d = os.path.join(ROOT, "work", tag)
+    d = os.path.join(WORK, tag)
     shutil.rmtree(d, ignore_errors=True)
     os.makedirs(d, exist_ok=True)
     return d
@@ -297,8 +301,9 @@ class Check:
             "wall_s": round(wall, 2),
             "violations": self.violations,
         }
-        os.makedirs(os.path.join(ROOT, "evidence"), exist_ok=True)
-        path = os.path.join(ROOT, "evidence", f"{self.pid}.json")
+        evdir = os.environ.get("VERIF_EVIDENCE_DIR", os.path.join(ROOT, "evidence"))
+        os.makedirs(evdir, exist_ok=True)
+        path = os.path.join(evdir, f"{self.pid}.json")
         with open(path, "w") as f:
             json.dump(ev, f, indent=1)
         validate_evidence(path)
